@@ -144,7 +144,8 @@ func (r *presign7) Finalize(out chan<- *round.Message) (round.Session, error) {
 		KShare:   r.KShare,
 		ChiShare: r.ChiShare,
 	}
-	if r.Message == nil {
+	// StartPresign selects the offline protocol (7 rounds) whenever the message is empty, nil or not.
+	if len(r.Message) == 0 {
 		return r.ResultRound(preSignature), nil
 	}
 
